@@ -8,6 +8,7 @@ import random
 PNAMES = [
     "dataset_name", "tfds_dir", "K", "as_numpy", "lr", "epochs", "alpha", "momentum", "nesterov",
     "log_dir", "mode", "size", "batch_size", "shuffle", "seed", "path", "verbose", "beta_1", "eps", "x", "y0",
+    "c", "s", "e", "cl",
 ]
 
 LIT_DEFAULTS = [
